@@ -29,6 +29,7 @@ ASSUMPTIONS = ["the base script is valid (reference interpreter accepts it), so 
 BUDGET = {"quick": (2500, 4), "thorough": (64000, 16)}
 
 _POS = re.compile(r"line (\d+):(\d+)")
+_R = list(range(840))
 
 
 def _cfg(tier):
@@ -38,8 +39,9 @@ def _cfg(tier):
 @st.composite
 def case(draw, tier):
     script = draw(S.script(_cfg(tier)))
-    fault = draw(st.sampled_from(["undefined"] * 5 + ["reserved"] * 2 + ["mode"] * 2 + ["complex"] * 2 + ["looptype", "include"]))
-    return {"script": script, "fault": fault, "r": [draw(st.integers(0, 1000)) for _ in range(8)],
+    fault = draw(st.sampled_from(["undefined"] * 5 + ["reserved"] * 2 + ["mode"] * 2 + ["complex"] * 2 + ["looptype", "include", "include"]))
+    # (uniform selectors: 840 is divisible by every modulus used below)
+    return {"script": script, "fault": fault, "r": [draw(st.sampled_from(_R)) for _ in range(8)],
             "fresh": draw(S.ident().filter(lambda n: len(n) >= 2))}
 
 
